@@ -40,13 +40,14 @@ impl MemcacheBinaryConnection {
                             request.header.body_length,
                             self.buffer.len()
                         );
-                        let skip = (request.header.body_length) - (self.buffer.len() as u32);
-                        if skip >= self.buffer.len() as u32 {
-                            self.buffer.clear();
-                        } else {
-                            self.buffer = self.buffer.split_off(skip as usize);
-                        }
-                        self.skip_bytes(skip).await?;
+                        // Discard exactly body_length bytes: first the part of
+                        // the body that has already been buffered, then the rest
+                        // straight from the socket. Whatever follows the body in
+                        // the buffer belongs to the next request and is kept.
+                        let body_length = request.header.body_length as usize;
+                        let buffered = cmp::min(body_length, self.buffer.len());
+                        let _ = self.buffer.split_to(buffered);
+                        self.skip_bytes((body_length - buffered) as u32).await?;
                         return Ok(Some(BinaryRequest::ItemTooLarge(request)));
                     }
                     _ => {
